@@ -3,8 +3,8 @@ CONSTANTS
   Files <- MCFiles
   Listeners <- MCListeners
   Reg <- MCReg
-  MaxWrites = 3
-  MaxErrors = 1
+  MaxWrites = 2
+  MaxErrors = 2
   Variant = "per_event"
 INVARIANTS TypeOK LoadedWasWritten NotifiedOfLast
 CHECK_DEADLOCK FALSE
